@@ -1,12 +1,111 @@
 (* C04 — Block-wise reduction equals single-pass reduction (kernel contract).
    This file only states; every theorem is closed by [exact] of a lemma proved
-   in Proofs/. *)
-From Coq Require Import List ZArith Bool.
-From GL Require Import Model.Dom Model.Scalar Spec.Defs Proofs.ReduceSeries Proofs.GenTie.
+   in Proofs/.  [o] ranges over the two value domains of the model:
+   floats ([fops]) and machine integers ([zops nullable nullv]). *)
+From Coq Require Import List ZArith Bool QArith Qcanon.
+From GL Require Import Lib.Arr Lib.Keyed Lib.Blocks Model.Dom Model.Scalar Model.Reduce
+  Spec.Defs Spec.Exec Proofs.ReduceSeries Proofs.ReduceKernel Proofs.ReduceMerge
+  Proofs.ReduceBlocks Proofs.ReduceWrap Proofs.ReduceSpec Proofs.GenTie
+  Gen.ScalarFuncsGen Gen.TablesGen.
+Import ListNotations.
 Open Scope Z_scope.
 
-(* single series: each reducer computes the per-group definition *)
-Theorem C04_series_nansum_float (l : list fl) :
-  series (r_nansum fops) l (zero fops, 0) = (sum_list fops (nonnull fops l), Z.of_nat (length (nonnull fops l))).
-Proof. exact (nansum_spec fops fops_laws l). Qed.
-Print Assumptions C04_series_nansum_float.
+(* 1. Every split into consecutive blocks — any thread count, any chunking of the
+      values — and every mask kind gives exactly the single pass over the rows
+      NumPy indexing selects. *)
+Theorem C04_blocks_float r gk chunks ng m nt :
+  kernel_value_reducer r -> (0 < nt)%nat -> chunks <> [] ->
+  length gk = length (concat chunks) -> wf_mask (length gk) m -> covered chunks m ->
+  group_func_wrap fops r gk chunks ng m nt = Ok (P fops r ng (sel_rows fops gk (concat chunks) m)).
+Proof. exact (group_func_wrap_any_split fops fops_laws r gk chunks ng m nt). Qed.
+Print Assumptions C04_blocks_float.
+
+Theorem C04_blocks_int nullable nullv r gk chunks ng m nt :
+  kernel_value_reducer r -> (0 < nt)%nat -> chunks <> [] ->
+  length gk = length (concat chunks) -> wf_mask (length gk) m -> covered chunks m ->
+  group_func_wrap (zops nullable nullv) r gk chunks ng m nt
+  = Ok (P (zops nullable nullv) r ng (sel_rows (zops nullable nullv) gk (concat chunks) m)).
+Proof. exact (group_func_wrap_any_split _ (zops_laws nullable nullv) r gk chunks ng m nt). Qed.
+Print Assumptions C04_blocks_int.
+
+(* 2. The single pass equals the per-group definition (value and count), for every
+      group, including empty and all-null ones. *)
+Theorem C04_single_pass_float r op ng rows g :
+  kernel_op r = Some op -> (g < ng)%nat ->
+  red_val fops op (group_vals g rows) (get (null fops) (fst (P fops r ng rows)) g)
+  /\ get 0 (snd (P fops r ng rows)) g = red_cnt fops op (group_vals g rows).
+Proof. exact (P_meets_definition fops fops_laws r op ng rows g). Qed.
+Print Assumptions C04_single_pass_float.
+
+Theorem C04_single_pass_int nullable nullv r op ng rows g :
+  let o := zops nullable nullv in
+  kernel_op r = Some op -> (g < ng)%nat ->
+  red_val o op (group_vals g rows) (get (null o) (fst (P o r ng rows)) g)
+  /\ get 0 (snd (P o r ng rows)) g = red_cnt o op (group_vals g rows).
+Proof. exact (P_meets_definition _ (zops_laws nullable nullv) r op ng rows g). Qed.
+Print Assumptions C04_single_pass_int.
+
+(* plain integer sum: every selected row is added (integer arrays hold no nulls) *)
+Theorem C04_single_pass_intsum nullable nullv ng rows g :
+  let o := zops nullable nullv in
+  (g < ng)%nat ->
+  get (null o) (fst (P o Rsum ng rows)) g = sum_list o (group_vals g rows)
+  /\ get 0 (snd (P o Rsum ng rows)) g = Z.of_nat (length (group_vals g rows)).
+Proof. exact (P_sum_all _ (zops_laws nullable nullv) ng rows g). Qed.
+Print Assumptions C04_single_pass_intsum.
+
+(* counts of the counting kernels add up over every list of blocks *)
+Theorem C04_blocks_counts_float r mr ng b0 bs :
+  count_additive (reducer_of fops r) (initial_value fops r) ->
+  forall chunks, length chunks = S (length bs) ->
+  snd (combine_factorized fops mr chunks (map snd (map (P fops r ng) (b0 :: bs))))
+  = snd (P fops r ng (concat (b0 :: bs))).
+Proof. exact (combine_factorized_counts fops r mr ng b0 bs). Qed.
+Print Assumptions C04_blocks_counts_float.
+
+(* 3. Negative codes are ignored. *)
+Theorem C04_negative_codes_float r ng rows :
+  P fops r ng (filter (fun row => negb (fst row <? 0)) rows) = P fops r ng rows.
+Proof. exact (P_drop_null fops r ng rows). Qed.
+Print Assumptions C04_negative_codes_float.
+Theorem C04_negative_codes_int nullable nullv r ng rows :
+  P (zops nullable nullv) r ng (filter (fun row => negb (fst row <? 0)) rows) = P (zops nullable nullv) r ng rows.
+Proof. exact (P_drop_null _ r ng rows). Qed.
+Print Assumptions C04_negative_codes_int.
+
+(* 4. Masks select rows the way array indexing would: a boolean mask visits the
+      rows a filter keeps (through nonzero()), a slice is a pair of views. *)
+Theorem C04_bool_mask_is_filter (gk : list Z) (vals : list fl) b :
+  length gk = length b -> length vals = length b ->
+  map (lookup fops gk vals) (nonzero b) = map fst (filter snd (combine (combine gk vals) b)).
+Proof. exact (nonzero_rows fops gk vals b). Qed.
+Print Assumptions C04_bool_mask_is_filter.
+Theorem C04_slice_is_view (gk : list Z) (vals : list fl) a b :
+  length gk = length vals ->
+  slice_list (combine gk vals) a b = combine (slice_list gk a b) (slice_list vals a b).
+Proof. exact (slice_combine gk vals a b). Qed.
+Print Assumptions C04_slice_is_view.
+
+(* 5. Tie B: the reducers regenerated from /repo's source on this run are the model's. *)
+Theorem C04_reducers_are_the_source's :
+  (forall a b c, @g_nansum fl fops a b c = r_nansum fops a b c) /\
+  (forall a b c, @g_sum Z (zops false 0) a b c = r_sum (zops false 0) a b c) /\
+  (forall a b c, @g_nanmin fl fops a b c = r_nanmin fops a b c) /\
+  (forall a b c, @g_nanmax fl fops a b c = r_nanmax fops a b c) /\
+  (forall a b c, @g_first fl fops a b c = r_first fops a b c) /\
+  (forall a b c, @g_last fl fops a b c = r_last fops a b c) /\
+  gen_kernel_reducers = kernel_reducers.
+Proof.
+  exact (conj (tie_nansum fops) (conj (tie_sum (zops false 0)) (conj (tie_nanmin fops)
+        (conj (tie_nanmax fops) (conj (tie_first fops) (conj (tie_last fops) tie_kernel_reducers)))))).
+Qed.
+Print Assumptions C04_reducers_are_the_source's.
+
+(* Non-vacuity: a concrete non-trivial input meets the hypotheses, and the model computes on it. *)
+Example C04_example :
+  let gk := [0; 1; -1; 1; 0] in
+  let chunks := [[fl_of_Z 1; FNan]; [fl_of_Z 2; fl_of_Z 3; fl_of_Z 4]] in
+  kernel_value_reducer Rnanmin /\ chunks <> [] /\ length gk = length (concat chunks) /\
+  wf_mask (length gk) MNone /\ covered chunks MNone /\
+  group_func_wrap fops Rnanmin gk chunks 2 MNone 1 = Ok ([fl_of_Z 1; fl_of_Z 3], [2; 1]).
+Proof. repeat split; try constructor; try discriminate; vm_compute; reflexivity. Qed.
